@@ -331,7 +331,10 @@ def run_impl(case, fd="case", td="case", rows=None):
                    "lotk": gls.get_acquired_lot_fraction(g) if l else None, "lotn": gls.get_acquired_lot_number_of_fractions(l) if l else None,
                    "typ": g.taxable_event.transaction_type.value, "run": fr(cd.get_crypto_gain_loss_running_sum(g))})
     ys = sorted([y.year, y.transaction_type.value, bool(y.is_long_term_capital_gains), fr(y.crypto_amount), fr(y.fiat_amount), fr(y.fiat_cost_basis), fr(y.fiat_gain_loss)] for y in cd.yearly_gain_loss_list)
-    bs = sorted([ACCTS.index((b.exchange, b.holder)), int(Decimal(b.acquired_balance) * U), int(Decimal(b.sent_balance) * U), int(Decimal(b.received_balance) * U), int(Decimal(b.final_balance) * U)] for b in cd.balance_set)
+    # an account the input never names (a mutated tree can invent one) gets an index past the known ones instead of stopping the harness:
+    # the balance rows then differ from the model's and the oracles see a row for an account no transaction touches
+    aidx = lambda e_, h_: ACCTS.index((e_, h_)) if (e_, h_) in ACCTS else len(ACCTS) + sorted({(x.exchange, x.holder) for x in cd.balance_set if (x.exchange, x.holder) not in ACCTS}).index((e_, h_))
+    bs = sorted([aidx(b.exchange, b.holder), int(Decimal(b.acquired_balance) * U), int(Decimal(b.sent_balance) * U), int(Decimal(b.received_balance) * U), int(Decimal(b.final_balance) * U)] for b in cd.balance_set)
     shown = {"in": [int(t.internal_id) for t in cd.in_transaction_set], "out": [int(t.internal_id) for t in cd.out_transaction_set], "intra": [int(t.internal_id) for t in cd.intra_transaction_set]}
     sums = {"in": sorted([int(t.internal_id), fr(cd.get_in_lot_sold_percentage(t)), fr(cd.get_crypto_in_running_sum(t))] for t in cd.in_transaction_set),
             "out": sorted([int(t.internal_id), fr(cd.get_crypto_out_running_sum(t)), fr(cd.get_crypto_out_fee_running_sum(t))] for t in cd.out_transaction_set),
